@@ -359,3 +359,130 @@ func checkHoistUnderConjunctionOnly(r *Run) {
 		r.Undecide("C10-R6: no kind-matcher hoisting site found in query/neo4j")
 	}
 }
+
+// checkBuilderCopiesCriteria (R7): Prepare rewrites the builder's model in place (it moves kind tests into the pattern
+// and removes them from the where list).  Criteria objects belong to the caller, who may use one filter for a count
+// query and again for the fetch; the builder may therefore keep a criteria node only as cypher.Copy(node).
+func checkBuilderCopiesCriteria(r *Run) {
+	const rule = "C10-R7-builder-copies-criteria"
+	p := r.Pkg("query/neo4j")
+	if p == nil {
+		r.Undecide("C10-R7: package query/neo4j not loaded")
+		return
+	}
+	info := p.TypesInfo
+	var apply *ast.FuncDecl
+	for _, f := range p.Syntax {
+		for _, d := range f.Decls {
+			if fd, ok := d.(*ast.FuncDecl); ok && fd.Name.Name == "Apply" && fd.Recv != nil && recvTypeName(fd.Recv.List[0].Type) == "QueryBuilder" {
+				apply = fd
+			}
+		}
+	}
+	if apply == nil || apply.Body == nil {
+		r.Undecide("C10-R7: QueryBuilder.Apply not found")
+		return
+	}
+	n := 0
+	ast.Inspect(apply.Body, func(x ast.Node) bool {
+		ts, ok := x.(*ast.TypeSwitchStmt)
+		if !ok {
+			return true
+		}
+		for _, c := range ts.Body.List {
+			cc := c.(*ast.CaseClause)
+			bound := info.Implicits[cc]
+			if bound == nil || len(cc.List) != 1 {
+				continue
+			}
+			if _, isPtr := bound.Type().(*types.Pointer); !isPtr {
+				continue
+			}
+			// every use of the bound criteria value must be the argument of cypher.Copy
+			var stack []ast.Node
+			for _, st := range cc.Body {
+				ast.Inspect(st, func(m ast.Node) bool {
+					if m == nil {
+						stack = stack[:len(stack)-1]
+						return true
+					}
+					stack = append(stack, m)
+					id, ok := m.(*ast.Ident)
+					if !ok || info.Uses[id] != bound {
+						return true
+					}
+					n++
+					construct := "QueryBuilder.Apply:" + namedName(bound.Type()) + "@" + r.Pos(id.Pos())
+					construct = "QueryBuilder.Apply:" + namedName(bound.Type())
+					okUse := false
+					if len(stack) >= 2 {
+						if call, isCall := stack[len(stack)-2].(*ast.CallExpr); isCall {
+							if fn := calleeOf(info, call); fn != nil && (fn.Name() == "Copy" || fn.Name() == "Apply") {
+								okUse = true
+							}
+						}
+						// reading a field or ranging over it is not keeping it
+						switch stack[len(stack)-2].(type) {
+						case *ast.SelectorExpr, *ast.RangeStmt:
+							okUse = true
+						}
+					}
+					if okUse {
+						r.Pass(rule, construct, id.Pos(), "kept only as cypher.Copy of the caller's node")
+					} else {
+						r.Fail(rule, construct, id.Pos(), "Apply keeps the caller's %s itself instead of a copy: Prepare then rewrites the caller's criteria in place (kind tests are moved out of the where list), so the same filter applied to a second query silently loses them", namedName(bound.Type()))
+					}
+					return true
+				})
+			}
+		}
+		return false
+	})
+	if n < 4 {
+		r.Undecide("C10-R7: expected Apply to adopt several criteria types, found %d uses", n)
+	}
+}
+
+// checkEscapeOnce (R8): property keys and map keys are held raw in the model and escaped exactly once, by the emitter.
+// A caller elsewhere that stores an already escaped key in the model gets it escaped again on output: the key
+// `object-id` is sent as ```object-id``` , which names a different property.  Only the emitter package (and the
+// function's own package) may call cypher.EscapePropertyKeyName.
+func checkEscapeOnce(r *Run) {
+	const rule = "C10-R8-escape-once"
+	n := 0
+	for path, p := range r.ByPath {
+		if !strings.HasPrefix(path, modPath) {
+			continue
+		}
+		for _, f := range p.Syntax {
+			if strings.HasSuffix(r.Fset.Position(f.Pos()).Filename, "_test.go") {
+				continue
+			}
+			ast.Inspect(f, func(x ast.Node) bool {
+				call, ok := x.(*ast.CallExpr)
+				if !ok {
+					return true
+				}
+				fn := calleeOf(p.TypesInfo, call)
+				if fn == nil || fn.Name() != "EscapePropertyKeyName" || fn.Pkg() == nil || !strings.HasSuffix(fn.Pkg().Path(), "/cypher/models/cypher") {
+					return true
+				}
+				n++
+				fd := enclosingFuncDecl(p, call.Pos())
+				where := shortPkg(path)
+				if fd != nil {
+					where += "." + funcDeclName(fd)
+				}
+				if strings.HasSuffix(path, "/cypher/models/cypher/format") || strings.HasSuffix(path, "/cypher/models/cypher") {
+					r.Pass(rule, where, call.Pos(), "the emitter escapes the key on output")
+				} else {
+					r.Fail(rule, where, call.Pos(), "%s escapes a property key before it goes into the model; the emitter escapes every key again on output, so a key that is not a plain identifier is sent with two layers of backticks and names a different property", where)
+				}
+				return true
+			})
+		}
+	}
+	if n == 0 {
+		r.Undecide("C10-R8: no call of cypher.EscapePropertyKeyName found (the emitter's calls were confirmed by reading)")
+	}
+}
